@@ -103,6 +103,18 @@ def run(ctx):
         sig = signature(r["events"])
         ctx.violation(sig, "real trace is not a behaviour of Fallback.tla satisfying C20 (rejected at event %s: %s)" % (
             info.get("line_in_trace"), info.get("event")), r)
+    # binding self-check: flip the logged result of an accepted trace, drop a logged wake reason
+    if not rej:
+        import copy
+        good = [r["events"] for r in steered if r["result"] == "P" and any(e["ev"] == "SecFinish" and e["o"] == "ans" for e in r["events"])]
+        if good:
+            t1 = copy.deepcopy(good[0])
+            for e in t1:
+                if e["ev"] == "Return":
+                    e["res"] = "S"
+            t2 = [e for e in copy.deepcopy(good[0]) if e["ev"] != "PrimFinish"]
+            vlib.assert_rejects(ctx, "Fallback_Trace", "Fallback_Trace.cfg", [t1, t2],
+                                "Return result flipped P->S; PrimFinish event removed")
     if not ctx.violations and not ctx.known_hits and len(steered) < len(behs) // 4:
         # nothing was rejected, but the schedules could not be forced either: no verdict
         raise vlib.Infra("dead driver: only %d of %d behaviours could be steered; first reasons: %s" % (
